@@ -4,12 +4,30 @@ import os
 
 VERIF = os.path.dirname(os.path.dirname(os.path.abspath(__file__)))
 
+RT_NOTE = ("Trusted: Coq kernel + vm_compute; SeqMachine.v as a faithful model of seq/seq.go (checked by correspondence on every run, bounded by the generators); "
+           "trampoline unwinding modelled by an epoch test; Go harness and renderers. No axioms (Print Assumptions: closed under the global context).")
+
 CHECKS = {
     "C08": dict(
         technique="Coq proof: exact-fuel refinement machine(seq.go) = reference interpreter, lifted to all operation histories; correspondence check model vs real seq on generated and exhaustively enumerated terms",
         text="Theorem C08_refinement (Props_C08.v): for every term, world and history of MoveNext/Current/Send/Result interleaved with arbitrary consumer actions, the definitional interpreter of seq.go returns the reference interpreter's responses and world; laws as corollaries. The model is tied to the code on every run by evaluating machine and reference models (vm_compute) on the cases the real package just ran, including the depth of every user-code call.",
-        note="Trusted: Coq kernel + vm_compute; SeqMachine.v as a faithful model of seq/seq.go (checked by correspondence, bounded by the generators); trampoline unwinding modelled by an epoch test; Go harness and renderers. No axioms (Print Assumptions: closed).",
-        design="§6 C08"),
+        note=RT_NOTE, design="§6 C08"),
+    "C09": dict(
+        technique="Coq proof: generator methods refine a 4-field specification automaton for every operation history; the property's sentences are lemmas about the automaton; exhaustive short histories run against the real package",
+        text="C09_machine_is_automaton + C09_* lemmas (Props_C09.v): Current/Result pure, zero before first advance and after exhaustion, exhaustion permanent without running generator code, Send semantics incl. auto-start, Result = return value. Tied to the code by exhaustive histories (length<=4 quick, <=6 thorough) over a generator family plus random terms, compared with machine and automaton models.",
+        note=RT_NOTE, design="§6 C09"),
+    "C14": dict(
+        technique="Coq proof: k generators in one heap under any schedule = k independent reference generators sharing only the user world (frame lemma: an operation touches only its own cells); exhaustive schedules, solo-vs-interleaved comparison and race detector on the real runtime",
+        text="C14_interleaving (Props_C14.v) for every number of generators and every schedule of operations. Partial by nature: goroutines/memory model are not modelled; parallel consumption is checked with the Go race detector on sampled cases.",
+        note=RT_NOTE + " Goroutine interleavings are outside the sequential model.", design="§6 C14"),
+    "C17": dict(
+        technique="Coq proof (partial): loop-back re-enters the loop at the trampoline's depth; loops whose body completes synchronously log one constant depth for any iteration count; exact depth-log correspondence model vs runtime.Callers; direct measurement up to 10^6 iterations",
+        text="C17_bounded_partial + C17_loopback_same_depth (Props_C17.v). The machine model carries the Go stack depth of every call; its depth log equals runtime.Callers on every generated case (exact comparison), and the check measures the real stack for 13 loop forms at 10..10^6 iterations.",
+        note=RT_NOTE + " The general bound for arbitrary loop bodies is not proved (stated in Props_C17.v).", design="§6 C17"),
+    "C18": dict(
+        technique="Coq proof: panic outcome is part of the refinement (same call, same value, same prior responses, generator state unchanged, other generators untouched); panic-injection correspondence on the real runtime",
+        text="C18_panic_locality, C18_panic_leaves_state, C18_not_from_another_iterator (Props_C18.v), projections of the refinement theorems onto the Panic outcome; runtime layer. Cases inject a transient panic into a random thunk/cond/post and keep driving the iterator afterwards.",
+        note=RT_NOTE, design="§6 C18"),
 }
 
 NOT_YET = {}
